@@ -237,6 +237,19 @@ pub fn f5_look(rng: &mut Rng, name: &str) -> Def {
     let mut def = Def::new(name, "F5", !bytes_mode);
     let n = rng.range(1, 4);
     let cfg = ReCfg { looks: true, unicode_chars: rng.chance(1, 4), max_depth: 2, ..ReCfg::basic() };
+    if rng.chance(1, 6) {
+        // every pattern has an empty language (an end assertion followed by more text): nothing can ever match
+        def.family = "F5-unsat".into();
+        for _ in 0..rng.range(1, 2) {
+            let pre = rng.pick_str(&["[a-c]*", "a+", "(ab)*", "[x-z]*[0-9]?", "", "q"]);
+            let mid = rng.pick_str(&["(x$y)+", "a$b", "\\zb", "(c\\z[a-z])+", "(?m:$)x", "z$[a-z]*.0"]);
+            let post = rng.pick_str(&["", "c*", "[0-9]+"]);
+            def.push(Pat::regex(&format!("{pre}{mid}{post}"), 0));
+        }
+        assign_priorities(rng, &mut def);
+        def.normalize();
+        return def;
+    }
     for _ in 0..n {
         let text = match rng.below(6) {
             0 => format!("{}{}", rand_re(rng, &ReCfg::basic(), 2).render(), rand_look(rng).render()),
@@ -608,6 +621,9 @@ pub fn f7_curated() -> Vec<Def> {
     // lazy quantifiers denote the same language
     mk(true, vec![Pat::regex("a+?b", 0), Pat::regex("a*?", 0).prio(1), Pat::regex("x{2,3}?", 0)]);
     mk(true, vec![Pat::regex("\"[^\"]*?\"", 0), Pat::regex("[a-z]+?", 0)]);
+    // no pattern can ever match (empty languages): the root must not keep edges into itself
+    mk(true, vec![Pat::regex("[a-c]*(x$y)+", 0)]);
+    mk(false, vec![Pat::regex("a+$b", 0), Pat::regex("[a-c]*\\zq", 0).prio(9)]);
     // dot
     mk(true, vec![Pat::regex(".", 0).prio(1), Pat::regex("ab", 0)]);
     mk(false, vec![Pat::regex(".", 0).prio(1), Pat::regex("ab", 0)]);
